@@ -596,37 +596,39 @@ class Bus(ContainerBase, StoreClientMixin): # not a ContainerOperand
                     )
             targets_items = targets.items()
 
-        for label, frame in targets_items:
-            idx = index._loc_to_iloc(label)
+        try:
+            for label, frame in targets_items:
+                idx = index._loc_to_iloc(label)
 
-            if frame is FrameDeferred:
-                frame = next(store_reader)
+                if frame is FrameDeferred:
+                    frame = next(store_reader)
 
-            if max_persist_active: # update LRU position, after the read: a failed read must not leave an unloaded label in the LRU
-                self._last_accessed[label] = self._last_accessed.pop(label, None)
+                if max_persist_active: # update LRU position, after the read: a failed read must not leave an unloaded label in the LRU
+                    self._last_accessed[label] = self._last_accessed.pop(label, None)
 
-            if not self._loaded[idx]:
-                # as we are iterating from `targets`, we might be holding on to references of Frames that we already removed in `array`; in this case we do not need to `read`, but we still need to update the new array
-                array[idx] = frame
-                self._loaded[idx] = True # update loaded status
-                if max_persist_active:
-                    loaded_count += 1
+                if not self._loaded[idx]:
+                    # as we are iterating from `targets`, we might be holding on to references of Frames that we already removed in `array`; in this case we do not need to `read`, but we still need to update the new array
+                    array[idx] = frame
+                    self._loaded[idx] = True # update loaded status
+                    if max_persist_active:
+                        loaded_count += 1
 
-            if max_persist_active and loaded_count > self._max_persist:
-                label_remove = next(iter(self._last_accessed))
-                del self._last_accessed[label_remove]
-                idx_remove = index._loc_to_iloc(label_remove)
-                self._loaded[idx_remove] = False
-                array[idx_remove] = FrameDeferred
-                loaded_count -= 1
-
-        array.flags.writeable = False
-        self._series = Series(array,
-                index=self._series._index,
-                dtype=object,
-                own_index=True,
-                )
-        self._loaded_all = self._loaded.all()
+                if max_persist_active and loaded_count > self._max_persist:
+                    label_remove = next(iter(self._last_accessed))
+                    del self._last_accessed[label_remove]
+                    idx_remove = index._loc_to_iloc(label_remove)
+                    self._loaded[idx_remove] = False
+                    array[idx_remove] = FrameDeferred
+                    loaded_count -= 1
+        finally:
+            # a store read that raises part-way must not leave labels flagged as loaded without their frames: what was read so far is kept
+            array.flags.writeable = False
+            self._series = Series(array,
+                    index=self._series._index,
+                    dtype=object,
+                    own_index=True,
+                    )
+            self._loaded_all = self._loaded.all()
 
     #---------------------------------------------------------------------------
     # extraction
